@@ -395,7 +395,7 @@ class AuthorizationResponse(oauth2.AuthorizationResponse, oauth2.AccessTokenResp
             if "client_id" in kwargs:
                 # check that it's for me
                 if kwargs["client_id"] not in self["aud"]:
-                    return False
+                    raise NotForMe("{} not in aud:{}".format(kwargs["client_id"], self["aud"]), self)
 
         if "id_token" in self:
             if not verify_id_token(self, check_hash=True, **kwargs):
